@@ -44,7 +44,8 @@ def parseObs (j : Json) : Except String Obs := do
            ret := (getOpt j "ret").bind (fun r => r.getInt?.toOption),
            err := (getOpt j "err").bind (fun r => r.getStr?.toOption),
            notifs := notifs,
-           accepts := ← (← getArr j "accepts").toList.mapM (·.getBool?) }
+           accepts := ← (← getArr j "accepts").toList.mapM (·.getBool?),
+           chg := match j.getObjVal? "chg" with | .ok (.bool b) => b | _ => true }
 
 def jPairs (d : Dict) : Json := Json.arr (d.map fun (k, v) => Json.arr #[Json.str k, toJson v]).toArray
 def jInts (l : List Int) : Json := Json.arr (l.map toJson).toArray
@@ -64,7 +65,7 @@ def jObs (o : Obs) : Json := Json.mkObj [
   ("ret", match o.ret with | some r => toJson r | none => Json.null),
   ("err", match o.err with | some e => Json.str e | none => Json.null),
   ("notifs", Json.arr (o.notifs.map fun (a, b) => Json.arr #[jPayload a, jPayload b]).toArray),
-  ("accepts", Json.arr (o.accepts.map Json.bool).toArray)]
+  ("accepts", Json.arr (o.accepts.map Json.bool).toArray), ("chg", Json.bool o.chg)]
 
 def opName : Op → String
   | .setIdx .. => "setIdx" | .setKey .. => "setKey" | .append .. => "append" | .insert .. => "insert"
@@ -92,6 +93,15 @@ def handle (req : Json) : Except String Json := do
     (s0, [], [])
   let modelInit := obsOf s0 {} univ
   let modelSteps := revObs.reverse
+  -- how far model and library can be compared: up to and including the first operation that is not
+  -- style-consistent / puts in an object equal to one already there (`Op.ok`): from then on equal objects may be
+  -- different Python objects, which `pop`/`remove` tell apart by identity and the model cannot
+  let comparable : Nat :=
+    let rec go (s : St) (l : List Op) (n : Nat) : Nat :=
+      match l with
+      | [] => n
+      | op :: rest => if invB s && okB s op then go (step pyStr s op).1 rest (n + 1) else n + 1
+    if invB s0 then go s0 ops 0 else 0
   -- oracle on the implementation's observations
   let impl ← req.getObjVal? "impl"
   let implInit ← parseObs (← impl.getObjVal? "init")
@@ -104,7 +114,8 @@ def handle (req : Json) : Except String Json := do
   let (_, sModel) := if invB s0 then specOn modelInit modelSteps else (0, none)
   let optJ : Option String → Json := fun | some s => Json.str s | none => Json.null
   return Json.mkObj [
-    ("model", Json.mkObj [("init", jObs modelInit), ("steps", Json.arr (modelSteps.map jObs).toArray)]),
+    ("model", Json.mkObj [("init", jObs modelInit), ("steps", Json.arr (modelSteps.map jObs).toArray),
+                           ("comparable", toJson comparable)]),
     ("applicable", Json.bool (invB (implInit.st c))),
     ("checked_steps", toJson nImpl),
     ("spec_impl", optJ sImpl), ("spec_model", optJ sModel),
